@@ -39,6 +39,10 @@ KEY_LAWS = {
     "same-prefix-product": ("(p * x) * (p * y)", "(p * p) * (x * y)", ""),
     "same-prefix-square": ("(p * x) * (p * x)", "(p * x)**2", ""),
     "same-prefix-quotient": ("(p * x) / (p * y)", "x / y", ""),
+    # the prefix written on the right of a unit that may carry one already
+    "prefix-on-the-right": ("(q * x) * p", "(q * p) * x", ""),
+    "prefix-either-side": ("x * p", "p * x", ""),
+    "identity-neutral-right": ("(q * x) * I", "q * x", ""),
 }
 CORE = ["measured.si.Meter", "measured.si.Second", "measured.si.Gram", "measured.iec.Bit",
         "measured.iec.Byte", "measured.si.Watt", "measured.us.Foot", "measured.si.Hertz",
